@@ -68,6 +68,10 @@ func (e *VEVM) GetEthAddressByValidator(ctx context.Context, validator sdk.ValAd
 	if e.fault("evm.GetEthAddressByValidator") {
 		return nil, false, errVInjected
 	}
+	// the validator may simply have no account on that chain: "not found" without an error
+	if e.fault("evm.GetEthAddressByValidator:not-found") {
+		return nil, false, nil
+	}
 	for i, v := range vVals {
 		if v.Equals(validator) {
 			a, err := types.NewEthAddress(vEthAddrs[i])
